@@ -20,20 +20,18 @@ NA = {
  "C28": "minicbor derive output and the brotli codec (macro-generated code and a large external codec); size-limit loop needs ~1000 iterations with an external reader (DESIGN §6)",
 }
 
-K_FIFO = "not decided: its contract is stated in DESIGN §4 over the per-transaction kernel (index_transaction_sats, U-FIFO), but the extracted kernel did not finish under Kani/CBMC even for 2 ranges x 2 outputs (20 min), and Verus rejects its redb/HashMap/iterator code; a smaller stand-in would be a model, not the code (DESIGN §6)"
-K_INS = "not decided: lives in InscriptionUpdater::index_inscriptions over redb tables, HashMaps and Vec sorting inside the `ord` crate; no engine for `ord`-crate files was built and the function is outside both verifiers' reach without rewriting it (DESIGN §6)"
-K_RUNES = "not decided as a whole: the leaf contracts it rests on are proved under C25 (Etching::supply, Edict::from_integers, RuneId delta/next), but the per-transaction kernel RuneUpdater::index_runes (HashMap<RuneId, Lot>, redb tables, `ord` crate) was not brought under a verifier (DESIGN §6)"
-K_ORD = "not decided: the functions live in the `ord` crate (src/), for which no extraction engine was built in the budget; the `ordinals`-crate parts are covered under C25/C26/C30-C33 (DESIGN §6)"
+K_FIFO = "not decided: its contract is stated in DESIGN §4 over the per-transaction kernel (Updater::index_transaction_sats, U-FIFO); the extracted kernel did not finish under Kani/CBMC even for 2 ranges x 2 outputs (20 min) - chains of growing Vec<u8> with symbolic lengths are the measured cost driver (DESIGN §0.6) - and Verus rejects its iterator-adapter code; a smaller stand-in would be a model, not the code. The storage encodings it writes and reads are under contract in C35"
+K_INS = "not decided: lives in InscriptionUpdater::index_inscriptions over redb tables, HashMaps and Vec sorting; the function is outside Verus's subset and was not brought under Kani in the budget (engine E2 exists since round 3 but only value-level files and small extracted kernels fit it; DESIGN §0.2, §6)"
+K_ARTIFACT = "not decided: the deciding functions (RuneUpdater::index_runes, etched, create_rune_entry) all start with `match artifact`, and Kani 0.68 aborts with an internal compiler error on every read of the discriminant of ordinals::Artifact (niche in the 128-bit tag of an Option<u128>; measured with probe harnesses, DESIGN §0.6); Verus rejects the same text (redb tables, HashMap). The contracts are written (contracts/ord/rune_updater_etching_contracts.rs.disabled) but cannot be checked with the installed tools"
+K_ORD = "not decided: the functions live in the `ord` crate outside the value-level files and small kernels that engine E2 reaches (DESIGN §0.2, §6)"
 UNBUILT = {
  "C01": K_FIFO, "C02": K_FIFO, "C03": K_FIFO + "; the inscription-movement half is in index_inscriptions (see C04)",
- "C04": K_INS, "C05": K_INS, "C06": K_INS, "C07": K_INS,
- "C08": K_RUNES, "C09": K_RUNES, "C10": K_RUNES, "C11": K_RUNES,
- "C16": "not decided as stated (whole-chain totality): the totality of Runestone::integers and varint::decode is proved under C25/C26 and parser panic-freedom under C31, but envelope parsing, Properties::from_cbor and the updaters are in the `ord` crate with no engine built (DESIGN §6)",
- "C20": K_ORD + "; TransactionBuilder is additionally ~1000 lines over BTreeMap/Vec state",
- "C27": K_ORD + "; envelope parsing runs on bitcoin::script::Instructions",
- "C34": K_ORD + "; Decimal::from_str is string-level code that CBMC did not finish on 7 characters (40 min); two overflow defects are known from reading only (DESIGN §5) and are NOT decided by any check here",
- "C35": K_ORD, "C36": K_ORD,
- "C37": K_RUNES + "; the inscription events are emitted from index_inscriptions (see C04)",
+ "C04": K_INS + "; the merge of pseudo-output entries and the inscription-list encoding it relies on are under contract in C35", "C05": K_INS, "C06": K_INS, "C07": K_INS,
+ "C09": K_ARTIFACT + ". The arithmetic it uses (Lot, even split) is under contract in C08",
+ "C11": K_ARTIFACT + ". Rune::reserved / is_reserved / commitment are proved under C32, the unlock schedule under C33",
+ "C16": "not decided as stated (whole-chain totality): panic-freedom obligations are discharged for the functions under contract in C25/C26 (varint, Runestone::integers), C27 (from_value, pointer), C31 (parsers), C35 (decoders of stored values) and C10/C08 (mint, update, unallocated never error), but envelope parsing, Properties::from_cbor, index_inscriptions and index_runes are not under contract, so the property as a whole is not claimed",
+ "C20": K_ORD + "; TransactionBuilder is ~1000 lines over BTreeMap/Vec state with f64 fee arithmetic",
+ "C37": "not decided: Kani 0.68 aborts on any read of the discriminant of ord's Event enum (same internal compiler error as for Artifact, DESIGN §0.6), so a harness can count events but not inspect them; the emitting functions index_runes / index_inscriptions are not under contract either",
 }
 
 TEXT = json.load(open(os.path.join(VERIF, "tools/manifest_text.json")))
